@@ -376,9 +376,15 @@ func TestC13_Enum(t *testing.T) {
 		}
 		// a worker that has been blocked for a long time (thorough): longer than
 		// any plausible internal timer
-		if thorough() {
-			for _, ws := range []struct{ w, s string }{{"syslog", "blocked_login"}, {"auditlog", "full_buffer"}, {"namedpipe", "idle_read"}, {"read", "idle_select"}} {
-				for _, d := range []int{1200000, 5600000} {
+		{
+			long := []struct{ w, s string }{{"syslog", "blocked_login"}}
+			delays := []int{5600000}
+			if thorough() {
+				long = []struct{ w, s string }{{"syslog", "blocked_login"}, {"auditlog", "full_buffer"}, {"namedpipe", "idle_read"}, {"read", "idle_select"}}
+				delays = []int{1200000, 5600000}
+			}
+			for _, ws := range long {
+				for _, d := range delays {
 					n++
 					if n%sn != si {
 						continue
